@@ -278,6 +278,18 @@ impl Scenario for C16 {
                         st.log.u64(a as u64);
                         let _ = b;
                     }
+                    Op::TestTimer => {
+                        if tr.pending.is_some() {
+                            // silent about a half that is pending across the timer test: keep it unambiguous
+                            continue;
+                        }
+                        st.count("probe:test_timer_in_history");
+                        for s in [&mut real, &mut twin] {
+                            s.g.jitter_ref().unwrap().set_cap(s.reads() + 1700);
+                            let g = s.g.as_mut();
+                            let _ = sut(guard(|| g.jitter().unwrap().test_timer().is_ok()), "test_timer")?;
+                        }
+                    }
                     Op::SetRounds(r) => {
                         if *r == 0 {
                             // rejected with the documented panic on both sides; nothing may change
